@@ -31,7 +31,8 @@ func runC14(p *Prog, r *Report) {
 	r.Min("C14.R2", 5+2*2)
 	r.Min("C14.R3", 3)
 	r.Min("C14.R4", 5)
-	r.Min("C14.R5", 3)
+	r.Min("C14.R5", 5)
+	r.Min("C14.R6", 4)
 	checkLogResults(p, r, "C14.R1")
 	checkJSONWriter(p, r)
 	// generated codecs
@@ -53,6 +54,7 @@ func runC14(p *Prog, r *Report) {
 	checkReflectiveMarshalers(p, r)
 	checkReadmeSamples(p, r)
 	checkDedup(p, r)
+	checkJSONWiring(p, r)
 }
 
 func checkJSONWriter(p *Prog, r *Report) {
@@ -501,6 +503,7 @@ func checkDedup(p *Prog, r *Report) {
 			}
 		}
 	}
+	checkDedupWiring(p, r, fn)
 	r.Check(okKey, "C14.R5", name+"/key", pos, "the seen-set is keyed by the complete ID() string, for lookup and insertion", whyKey)
 	r.Check(okFwd && seenNew && seenOld, "C14.R5", name+"/forward", pos, "a result is forwarded exactly once iff its ID was not seen before (first sighting wins)", whyFwd)
 	// ARP ID is the address
@@ -595,4 +598,332 @@ func byteSeq(s *Seg, v ssa.Value, data ssa.Value, d int) ([]string, bool) {
 		}
 	}
 	return nil, false
+}
+
+// checkDedupWiring: the de-duplicating goroutine is actually in the path of live ARP output.
+// (a) the logger type that owns it hands its delegate only the de-duplicated stream;
+// (b) the arp command's logger is that type whenever the live timeout is set, whatever the output format.
+func checkDedupWiring(p *Prog, r *Report, dedup *ssa.Function) {
+	m := dedup.Parent()
+	if m == nil || m.Signature.Recv() == nil {
+		r.Undecided("C14.R5", "de-duplicator/owner", "-", "the de-duplicating goroutine is started by a method of the unique logger", "no receiver")
+		return
+	}
+	T := m.Signature.Recv().Type()
+	// (a)
+	okA, whyA, nA := true, "", 0
+	for _, f := range p.SrcFuncs() {
+		if f.Signature.Recv() == nil || !types.Identical(f.Signature.Recv().Type(), T) || f.Name() != "LogResults" {
+			continue
+		}
+		for _, s := range PathsInl(f).Segs {
+			for _, e := range s.Events {
+				if e.Kind != EvCall || e.Call == nil {
+					continue
+				}
+				cc := e.Call
+				if !cc.IsInvoke() || cc.Method.Name() != "LogResults" {
+					continue
+				}
+				nA++
+				fromDedup := false
+				if c, isC := s.Resolve(cc.Args[1]).(*ssa.Call); isC && StaticCallee(&c.Call) == m {
+					continue
+				}
+				for _, o := range p.Origins(s.Resolve(cc.Args[1])) {
+					if c, isC := o.(*ssa.Call); isC && StaticCallee(&c.Call) == m {
+						fromDedup = true
+					} else {
+						okA, whyA = false, "the delegate logger receives "+s.Term(cc.Args[1])+" (not the de-duplicated stream)"
+					}
+				}
+				if !fromDedup {
+					okA, whyA = false, "the delegate logger does not receive the de-duplicated stream"
+				}
+			}
+		}
+	}
+	r.Check(okA && nA > 0, "C14.R5", "unique-logger/forwards-deduplicated", p.Pos(m.Pos()), "the unique logger hands its delegate exactly the stream produced by the de-duplicating goroutine", whyA)
+	// constructors of T
+	ctors := map[*ssa.Function]bool{}
+	for _, f := range p.SrcFuncs() {
+		if f.Pkg == m.Pkg && f.Parent() == nil && f.Signature.Recv() == nil && f.Signature.Results().Len() == 1 && types.Identical(f.Signature.Results().At(0).Type(), T) {
+			ctors[f] = true
+		}
+	}
+	// (b)
+	nB := 0
+	for _, f := range p.SrcFuncs() {
+		if f.Pkg != p.SPkg("command") || f.Parent() != nil || f.Signature.Results().Len() != 2 {
+			continue
+		}
+		if !strings.HasSuffix(types.TypeString(f.Signature.Results().At(0).Type(), nil), "command/log.Logger") {
+			continue
+		}
+		reads := false
+		for _, b := range f.Blocks {
+			for _, in := range b.Instrs {
+				if u, isU := in.(*ssa.UnOp); isU {
+					if _, fld, isF := fieldLoad(u); isF && fld == "liveTimeout" {
+						reads = true
+					}
+				}
+			}
+		}
+		if !reads {
+			continue
+		}
+		nB++
+		ok, why := true, ""
+		nLive := 0
+		for _, s := range PathsInl(f).Segs {
+			if !s.Returns() || retClass(s) == retFail {
+				continue
+			}
+			live, known := liveFact(s)
+			if !known {
+				ok, why = false, "an accepting path does not test the live timeout"
+				continue
+			}
+			ret := stripConvAll(s.Resolve(s.Exit.(*ssa.Return).Results[0]))
+			c, isC := s.Resolve(ret).(*ssa.Call)
+			wrapped := isC && ctors[StaticCallee(&c.Call)]
+			if live {
+				nLive++
+				if !wrapped {
+					ok, why = false, "with the live timeout set the returned logger is "+s.Term(ret)+", not the de-duplicating logger (some output format loses de-duplication)"
+				}
+			}
+		}
+		r.Check(ok && nLive > 0, "C14.R5", FuncName(f)+"/live-is-unique", p.Pos(f.Pos()), "in live mode the arp command's logger is the de-duplicating logger wrapped around whatever logger the output options produced", why)
+	}
+	if nB == 0 {
+		r.Viol("C14.R5", "live-logger-wiring", "-", "a logger builder in command/ reads the live timeout and wraps the logger", "not found")
+	}
+}
+
+// liveFact: what the path knows about `liveTimeout > 0`.
+func liveFact(s *Seg) (live, known bool) {
+	for _, f := range s.Facts {
+		b, isB := f.Cond.(*ssa.BinOp)
+		if !isB {
+			continue
+		}
+		x, y, op := b.X, b.Y, b.Op
+		if _, isC := x.(*ssa.Const); isC {
+			x, y = y, x
+			op = flipOp(op)
+		}
+		k, isK := constInt(y)
+		if !isK || k != 0 {
+			continue
+		}
+		if _, fld, isF := fieldLoad(s.Resolve(x)); !isF || fld != "liveTimeout" {
+			continue
+		}
+		switch op {
+		case token.GTR, token.NEQ:
+			return f.Truth, true
+		case token.LEQ, token.EQL:
+			return !f.Truth, true
+		}
+	}
+	return false, false
+}
+
+// PathElems evaluates, on one path, a slice built from literals and append calls into its elements.
+func PathElems(s *Seg, v ssa.Value, d int) ([]ssa.Value, bool) {
+	if d > 12 || v == nil {
+		return nil, false
+	}
+	v = s.Resolve(v)
+	if isNilConst(v) {
+		return nil, true
+	}
+	switch t := v.(type) {
+	case *ssa.Slice:
+		if _, ok := t.X.(*ssa.Alloc); ok && t.Low == nil && t.High == nil {
+			return VariadicElems(t)
+		}
+		_ = t
+	case *ssa.Call:
+		if bi, ok := t.Call.Value.(*ssa.Builtin); ok && bi.Name() == "append" && len(t.Call.Args) == 2 {
+			a, okA := PathElems(s, t.Call.Args[0], d+1)
+			b, okB := PathElems(s, t.Call.Args[1], d+1)
+			if okA && okB {
+				return append(append([]ssa.Value{}, a...), b...), true
+			}
+		}
+	}
+	return nil, false
+}
+
+// checkJSONWiring (R6): --json selects the JSON writer. (a) the JSON option installs a JSONResultWriter as
+// the logger's result writer; (b) every logger builder in command/ passes that option exactly on the paths
+// where the json flag is set, and no option after it in the list replaces or wraps the result writer.
+func checkJSONWiring(p *Prog, r *Report) {
+	lp := p.SPkg("command/log")
+	if lp == nil {
+		r.Undecided("C14.R6", "log package", "-", "command/log is loaded", "missing")
+		return
+	}
+	var jsonOpt *ssa.Function
+	rwWriters := map[*ssa.Function]bool{}
+	for _, m := range lp.Members {
+		f, ok := m.(*ssa.Function)
+		if !ok {
+			continue
+		}
+		sm := SummOption(f)
+		if sm == nil {
+			continue
+		}
+		for _, w := range sm.Writes {
+			if w.Field != "rw" {
+				continue
+			}
+			rwWriters[f] = true
+			if a, isA := stripConvAll(w.Val).(*ssa.Alloc); isA && strings.HasSuffix(types.TypeString(a.Type(), nil), "command/log.JSONResultWriter") {
+				jsonOpt = f
+			}
+		}
+	}
+	r.Check(jsonOpt != nil, "C14.R6", "log.JSON option", "-", "an option of command/log installs a fresh JSONResultWriter as the logger's result writer", "not found")
+	if jsonOpt == nil {
+		return
+	}
+	n := 0
+	for _, fn := range p.SrcFuncs() {
+		if fn.Pkg != p.SPkg("command") {
+			continue
+		}
+		if fn.Signature.Results().Len() == 0 || !strings.HasSuffix(types.TypeString(fn.Signature.Results().At(0).Type(), nil), "command/log.Logger") {
+			continue
+		}
+		segs := PathsInl(fn).Segs
+		// the NewLogger call may sit in a helper that was expanded into this function
+		found := false
+		for _, s := range segs {
+			for _, e := range s.Events {
+				if e.Kind == EvCall && e.Call != nil && calleeFull(e.Call) == modPath+"/command/log.NewLogger" {
+					found = true
+				}
+			}
+		}
+		if !found {
+			continue
+		}
+		name := FuncName(fn)
+		pos := p.Pos(fn.Pos())
+		ok, why := true, ""
+		sawJSON, sawPlain, viaParam, undecided := false, false, false, false
+		undecidedWhy := ""
+		for _, s := range segs {
+			if !s.Returns() {
+				continue
+			}
+			var mk *ssa.Call
+			for _, e := range s.Events {
+				if e.Kind == EvCall && e.Call != nil && calleeFull(e.Call) == modPath+"/command/log.NewLogger" {
+					mk, _ = e.Instr.(*ssa.Call)
+				}
+			}
+			if mk == nil {
+				continue
+			}
+			elems, known := PathElems(s, mk.Call.Args[len(mk.Call.Args)-1], 0)
+			if !known {
+				undecidedWhy = "options come from " + s.Term(mk.Call.Args[len(mk.Call.Args)-1])
+				undecided = true
+				break
+			}
+			jsonSet, jsonKnown := false, false
+			for _, f := range s.Facts {
+				c := s.Resolve(f.Cond)
+				if _, isP := c.(*ssa.Parameter); isP && c.Type().String() == "bool" {
+					viaParam = true
+				}
+				if u, isU := c.(*ssa.UnOp); isU {
+					if _, fld, isF := fieldLoad(u); isF && fld == "json" {
+						jsonSet, jsonKnown = f.Truth, true
+					}
+				}
+			}
+			if !jsonKnown {
+				ok, why = false, "a path builds the logger without testing the json flag"
+				continue
+			}
+			last := -1
+			idxJSON := -1
+			for i, e := range elems {
+				c, isC := stripConvKeepIface(e).(*ssa.Call)
+				if !isC {
+					ok, why = false, "a logger option is not a direct option constructor call"
+					continue
+				}
+				cal := StaticCallee(&c.Call)
+				if cal == jsonOpt {
+					idxJSON = i
+				}
+				if rwWriters[cal] {
+					last = i
+				}
+			}
+			if jsonSet {
+				sawJSON = true
+				if idxJSON < 0 {
+					ok, why = false, "with --json set the JSON option is not passed"
+				} else if last != idxJSON {
+					ok, why = false, "an option after JSON() replaces the result writer"
+				}
+			} else {
+				sawPlain = true
+				if idxJSON >= 0 {
+					ok, why = false, "the JSON option is passed although --json is not set"
+				}
+			}
+		}
+		if undecided {
+			// decided in a builder this function calls (helper expansion stops at a fixed depth)?
+			covered := false
+			for _, b := range fn.Blocks {
+				for _, in := range b.Instrs {
+					if ci, isCI := in.(ssa.CallInstruction); isCI {
+						if cal := StaticCallee(ci.Common()); cal != nil && cal != fn && cal.Pkg == fn.Pkg && cal.Signature.Results().Len() > 0 &&
+							strings.HasSuffix(types.TypeString(cal.Signature.Results().At(0).Type(), nil), "command/log.Logger") {
+							covered = true
+						}
+					}
+				}
+			}
+			if !covered {
+				n++
+				r.Undecided("C14.R6", name, pos, "the logger options are a literal list extended by append", undecidedWhy)
+			}
+			continue
+		}
+		if !sawJSON && !sawPlain && viaParam && len(p.CallSites(fn)) > 0 {
+			// a helper deciding on a bool parameter: decided in each caller, where it is expanded
+			allCommand := true
+			for _, cs := range p.CallSites(fn) {
+				if cs.Parent().Pkg != fn.Pkg {
+					allCommand = false
+				}
+			}
+			if allCommand {
+				continue
+			}
+		}
+		n++
+		r.Check(ok && sawJSON && sawPlain, "C14.R6", name, pos, "the logger gets the JSON writer exactly when --json is set, and it is the last option that touches the result writer", why)
+	}
+	if n < 2 {
+		r.Viol("C14.R6", "logger builders", "-", "the two logger builders of command/ are found", fmt.Sprint(n))
+	}
+	// the json option field is bound to the --json flag
+	for _, fr := range p.FlagTable() {
+		if fr.Name == "json" {
+			r.Check(fr.Field != nil && fr.Field.Name() == "json", "C14.R6", "flag --json/"+fr.Field.Name()+"@"+p.Pos(fr.Call.Pos()), p.Pos(fr.Call.Pos()), "--json is bound to the json options field the logger builders test", "")
+		}
+	}
 }
